@@ -617,7 +617,7 @@ func (w *world) waitEvent(prefix string, d time.Duration) {
 }
 
 // waitCount waits until n events with the given prefix have been recorded.
-func (w *world) waitCount(prefix string, n int, d time.Duration) {
+func (w *world) waitCount(prefix string, n int, d time.Duration) bool {
 	deadline := time.Now().Add(d)
 	for time.Now().Before(deadline) {
 		w.mu.Lock()
@@ -629,10 +629,12 @@ func (w *world) waitCount(prefix string, n int, d time.Duration) {
 		}
 		w.mu.Unlock()
 		if seen >= n {
-			return
+			return true
 		}
 		time.Sleep(50 * time.Microsecond)
 	}
+
+	return false
 }
 
 // stopInvoked waits until the Stop call has been recorded and then long enough for it to clear `running`
@@ -752,7 +754,7 @@ func run(c cfg) []string {
 func run2(c cfg) ([]string, map[int][]string) {
 	for try := 0; ; try++ {
 		ev, plog := run1(c)
-		if _, m := splitPseudo(ev); m.slow && try < 4 {
+		if _, m, _, end := judge(ev); m.slow && end == "" && try < 4 {
 			// the machine stalled while the writer was held: the batch timer may have fired; once more
 			continue
 		}
@@ -923,7 +925,9 @@ func runIn(w *world) []string {
 		p0 := w.spawn(0, func() {
 			for i, d := range c.md {
 				w.enqueueM(0, w.objs[0], int(d-'0'))
-				w.waitCount("w ", i+1, stressBound)
+				if !w.waitCount("w ", i+1, stressBound) {
+					break // the writer does not write any more: no point in waiting for it again and again
+				}
 			}
 			if c.fl > 0 {
 				w.rec("fl")
@@ -949,12 +953,17 @@ func runIn(w *world) []string {
 		t0 := time.Now()
 		p0 := w.spawn(0, func() {
 			w.enqueue(0, w.objs[0])
-			w.waitCount("w ", 1, stressBound)
+			alive := w.waitCount("w ", 1, stressBound/2)
 			for i := 1; i < c.n; i++ {
 				w.enqueue(0, w.objs[i])
 			}
 			w.rec("fl")
 			w.bw.Flush()
+			if !alive {
+				close(gate)
+
+				return
+			}
 			if time.Since(t0) > c.timeout()/3 {
 				w.slow.Store(true)
 				w.mu.Lock()
@@ -1680,12 +1689,14 @@ func runBatch(r *hx.Run, cs []cfg, par int) {
 		go func(i int, c cfg) {
 			defer wg.Done()
 			defer func() { <-sem }()
+			t0 := time.Now()
 			ev, plog := run2(c)
 			res[i] = result{c, ev, plog}
 			ran[i] = true
 			if _, _, _, end := judge(res[i].ev); end != "" {
 				failedCases.Add(1)
-				if end == "blocked-forever" {
+				if end == "blocked-forever" || time.Since(t0) > 3*time.Second {
+					// a call that never returned, or a failing case that waited long for progress that did not come
 					hungCases.Add(1)
 				}
 			}
